@@ -261,6 +261,8 @@ def analyse_insync(ctx, mod, fn, short, sintl_var="sintlH"):
 
 
 def run(ctx):
+    from xfabsa import numeric as _N
+    _N.alias_rule(ctx, 'C06', ['xfab/tools.py', 'xfab/laue.py', 'xfab/sg.py'])
     ctx.rule("domain", "cones are a fundamental domain of the Laue group of each setting (every orbit meets them exactly once)")
     ctx.rule("dispatch", "every (Laue, cell_choice) of sglib selects exactly one cone table; generators are unimodular")
     ctx.rule("shell", "acceptance test `sintlH > sintlmin and sintlH <= sintlmax`")
